@@ -377,6 +377,11 @@ func ValidateRequestBody(ctx context.Context, input *RequestValidationInput, req
 		}
 	}
 
+	if defaultsSet && RegisteredBodyEncoder(mediaType) == nil {
+		// no encoder for this media type (only JSON has one out of the box): the body has been validated with its
+		// defaults filled in and is forwarded as it was received, instead of rejecting a valid request
+		defaultsSet = false
+	}
 	if defaultsSet {
 		var err error
 		if data, err = encodeBody(value, mediaType); err != nil {
